@@ -35,6 +35,9 @@ def main():
     rc, out = sh('git -C /repo worktree add -q --detach %s HEAD' % wt)
     try:
         rc, out = sh('git apply %s' % os.path.abspath(patch), cwd=wt)
+        if rc != 0:
+            rc, out = sh('git apply --3way %s' % os.path.abspath(patch), cwd=wt)
+            meta['ran'].append('git apply --3way (the tree gained fix commits since the change was written)')
         meta['ran'].append('git apply -> %d' % rc)
         if rc != 0:
             meta['error'] = 'patch does not apply: ' + out[-300:]
@@ -60,6 +63,8 @@ def main():
     sh('git -C /repo worktree add -q --detach %s HEAD' % wt2)
     try:
         rc, out = sh('git apply %s' % os.path.abspath(patch), cwd=wt2)
+        if rc != 0:
+            rc, out = sh('git apply --3way %s' % os.path.abspath(patch), cwd=wt2)
         t0 = time.time()
         checks = [prop] + [x for x in sys.argv[4:] if x.startswith('C') and len(x) == 3]
         meta['detected_by'] = []
